@@ -98,6 +98,11 @@ type RunObs struct {
 	SResult string            `json:"sresult,omitempty"`
 	SMsg    string            `json:"smsg,omitempty"`
 	Fab     string            `json:"fab,omitempty"` // a lambda received a value that nobody produced (any mode)
+	// the same run through Stream once more, the stream-producing lambdas (Stream / Transform) with an
+	// interface output type sending a second chunk of another dynamic type (first build, first plans)
+	Emit2  map[string]string `json:"emit2,omitempty"`
+	MClass string            `json:"mclass,omitempty"`
+	MMsg   string            `json:"mmsg,omitempty"`
 }
 
 type LatObs struct {
@@ -221,7 +226,8 @@ func build(c *Case, plans []runPlan, extra bool) (bo BuildObs) {
 	case 2:
 		gopts = append(gopts, compose.WithGenLocalState(func(ctx context.Context) *u.St2 { return &u.St2{} }))
 	}
-	cur := map[int]string{} // emitted value per node for the current run
+	cur := map[int]string{}  // emitted value per node for the current run
+	cur2 := map[int]string{} // second chunk per stream-producing node (multi-chunk runs only)
 	// every value a lambda receives in the current run (a run abandoned by the watchdog may still write)
 	type seenVal struct {
 		key int
@@ -252,7 +258,12 @@ func build(c *Case, plans []runPlan, extra bool) (bo BuildObs) {
 				}
 				if o.K == "node" {
 					key := o.Key
-					emit := func() any { return valueOf(cur[key]) }
+					emit := func() any {
+						if v2, ok := cur2[key]; ok {
+							return u.Multi{Vals: []any{valueOf(cur[key]), valueOf(v2)}}
+						}
+						return valueOf(cur[key])
+					}
 					seen := func(v any) {
 						seenMu.Lock()
 						seenVals = append(seenVals, seenVal{key, v})
@@ -396,6 +407,9 @@ func build(c *Case, plans []runPlan, extra bool) (bo BuildObs) {
 						mode := "Invoke"
 						if stream {
 							mode = "Stream"
+							if len(cur2) > 0 {
+								mode = fmt.Sprintf("Stream with second chunks %v", cur2)
+							}
 						}
 						ro.Fab = fmt.Sprintf("%s: node %d received %#v (%s), which nobody produced", mode, sv.key, sv.v, dynOf(sv.v))
 					}
@@ -408,6 +422,21 @@ func build(c *Case, plans []runPlan, extra bool) (bo BuildObs) {
 		}
 		ro.Class, ro.Result, ro.Msg = once(false)
 		ro.SClass, ro.SResult, ro.SMsg = once(true)
+		// multi-chunk streams: every chunk of an interface-typed stream is a value of its own dynamic type
+		if extra && len(bo.Runs) < 4 {
+			if m2 := secondChunks(c, pl); len(m2) > 0 {
+				ro.Emit2 = map[string]string{}
+				for k, v := range m2 {
+					cur2[k] = v
+					ro.Emit2[strconv.Itoa(k)] = v
+					legitVals = append(legitVals, valueOf(v))
+				}
+				ro.MClass, _, ro.MMsg = once(true)
+				for k := range cur2 {
+					delete(cur2, k)
+				}
+			}
+		}
 		if dagInv != nil {
 			cur_inv = dagInv
 			var dmsg string
@@ -419,6 +448,29 @@ func build(c *Case, plans []runPlan, extra bool) (bo BuildObs) {
 		bo.Runs = append(bo.Runs, ro)
 	}
 	return
+}
+
+// secondChunks: for every lambda written as Stream / Transform whose static output type admits more than one
+// dynamic value, a second chunk of another dynamic type than the planned one
+func secondChunks(c *Case, pl runPlan) map[int]string {
+	m := map[int]string{}
+	seen := map[int]bool{}
+	for _, o := range c.Ops {
+		if o.K != "node" || seen[o.Key] || (o.Kind != 1 && o.Kind != 3) {
+			continue
+		}
+		seen[o.Key] = true
+		opts := optionsFor(o.Out)
+		if len(opts) < 2 {
+			continue
+		}
+		for i, v := range opts {
+			if v == pl.emit[o.Key] {
+				m[o.Key] = opts[(i+1)%len(opts)]
+			}
+		}
+	}
+	return m
 }
 
 // ---------------------------------------------------------------- direct oracle
@@ -903,6 +955,8 @@ func (engine) Run(ci any) lib.Result {
 					sig := "stream-panic"
 					fail(sig, fmt.Sprintf("accepted graph: run %d (input %s, emit %v) through Stream: %s (%s); Invoke gives %s/%s", k, r.Input, r.Emit, r.SClass, r.SMsg, r.Class, r.Result))
 				}
+			case r.MClass == "panic_esc" || r.MClass == "panic_rec" || r.MClass == "hang":
+				fail("stream-panic", fmt.Sprintf("accepted graph: run %d (input %s, emit %v, second chunks %v) through Stream: %s (%s)", k, r.Input, r.Emit, r.Emit2, r.MClass, r.MMsg))
 			case strings.HasPrefix(r.DClass, "panic") || strings.HasPrefix(r.DClass, "hang"):
 				fail("dag-panic", fmt.Sprintf("accepted graph compiled with AllPredecessor: run %d (input %s, emit %v): %s", k, r.Input, r.Emit, r.DClass))
 			case r.Class == "ok" && r.SClass != "ok":
@@ -1057,6 +1111,15 @@ func (engine) Run(ci any) lib.Result {
 	}
 	for k := range scls {
 		tags = append(tags, "stream:"+k)
+	}
+	mcls := map[string]bool{}
+	for _, r := range bo.Runs {
+		if r.MClass != "" {
+			mcls[r.MClass] = true
+		}
+	}
+	for k := range mcls {
+		tags = append(tags, "multichunk:"+k)
 	}
 	sort.Strings(tags)
 	res.Tags = tags
